@@ -445,6 +445,50 @@ def count_2q(ops):
     return sum(1 for o in ops if len(o.qubits) == 2)
 
 
+def check_weyl_faces(ctx, cirq):
+    """unitaries at every distance 1e-11 .. 1e-5 from the corners and the x = pi/4 face of the Weyl chamber (where the canonical
+    coefficients jump and the eigenphases of the magic-basis matrix become degenerate), with global phases that put the eigenphases
+    near 0 and +-pi/2: the KAK decomposition rebuilds the input and the syntheses multiply to it"""
+    rng = ctx.substream('weyl-faces')
+    q0, q1 = cirq.LineQubit.range(2)
+    pi4 = math.pi / 4
+    loc = lambda: np.kron(gen.rand_unitary(rng, 2), gen.rand_unitary(rng, 2))
+    fs = cirq.FSimGate(theta=1.3, phi=0.4)
+    scales = [10.0 ** k for k in range(-11, -4)] + [3e-9, 3e-8, 2e-8, 0.7e-8]
+    reps = 1 if ctx.tier == 'quick' else 6
+    patterns = [(0, 0, 1), (0, 0, None), (0, None, None), (None, None, None)]   # which distances are 0, eps, or eps * random
+    phases = [1, 1j, np.exp(0.25j * math.pi), None]
+    for eps in scales:
+        for shape in ('swap', 'swap-', 'face', 'iswap', 'cnot'):
+            for pat, ph, _ in itertools.product(patterns if shape.startswith('swap') else patterns[-1:], phases, range(reps)):
+                d1, d2, d3 = (eps * (rng.uniform(0, 1) if f is None else f) for f in pat)
+                x, y, z = {'swap': (pi4 - d1, pi4 - d1 - d2, pi4 - d1 - d2 - d3), 'swap-': (pi4 - d1, pi4 - d1 - d2, -(pi4 - d1 - d2 - d3)),
+                           'face': (pi4 - d1, 0.4, rng.choice([1, -1]) * (0.2 + d3)), 'iswap': (pi4 - d1, pi4 - d1 - d2, rng.choice([1, -1]) * d3),
+                           'cnot': (pi4 - d1, d2, rng.choice([1, -1]) * min(d2, d3))}[shape]
+                ph = np.exp(1j * rng.uniform(0, 6)) if ph is None else ph
+                u = ph * (loc() @ interaction(x, y, z) @ loc())
+                rep = {'lines': [{'matrix': repr(u.tolist()), 'shape': shape, 'eps': eps, 'coefficients': [x, y, z]}], 'theorem_or_correspondence': 'kak_reconstructs / operation product'}
+                ctx.case(['weyl-face', shape, eps], True)
+                ctx.count('check', 'weyl-face:kak')
+                kak = cirq.kak_decomposition(u)
+                if not np.allclose(cirq.unitary(kak), u, atol=1e-6):
+                    ctx.report_witness('kak:reconstruct:weyl-face', 'kak_decomposition of a unitary next to a face of the Weyl chamber does not multiply back to the input',
+                                       dict(rep, impl_out=[repr(np.round(cirq.unitary(kak), 7).tolist())], spec_out=['the input']))
+                    continue
+                ctx.count('check', 'weyl-face:four-fsim')
+                c = cirq.decompose_two_qubit_interaction_into_four_fsim_gates(u, fsim_gate=fs, qubits=(q0, q1))
+                if not np.allclose(c.unitary(qubit_order=[q0, q1]), u, atol=1e-6):
+                    ctx.report_witness('synth:fsim', 'decompose_two_qubit_interaction_into_four_fsim_gates: wrong product next to a face of the Weyl chamber',
+                                       dict(rep, impl_out=[repr(np.round(c.unitary(qubit_order=[q0, q1]), 7).tolist())], spec_out=['the input']))
+                for name, f in (('cz', lambda: cirq.two_qubit_matrix_to_cz_operations(q0, q1, u, allow_partial_czs=False)),
+                                ('sqrt-iswap', lambda: cirq.two_qubit_matrix_to_sqrt_iswap_operations(q0, q1, u))):
+                    ctx.count('check', f'weyl-face:{name}')
+                    got = cirq.Circuit(f()).unitary(qubit_order=[q0, q1], qubits_that_should_be_present=[q0, q1])
+                    if not phase_close(got, u, 1e-5):
+                        ctx.report_witness(f'synth:{name}', f'synthesis into {name}: wrong product next to a face of the Weyl chamber',
+                                           dict(rep, impl_out=[repr(np.round(got, 7).tolist())], spec_out=['the input up to phase']))
+
+
 def check_synthesis(ctx, cirq, n):
     import cirq_google
 
@@ -625,6 +669,7 @@ def run(ctx: common.Run):
     check_symbolic_sqrt_iswap(ctx, cirq)
     check_cnot_counts_and_tabulation(ctx, cirq, max(24, n // 2))
     check_synthesis(ctx, cirq, n)
+    check_weyl_faces(ctx, cirq)
     check_multi_controlled(ctx, cirq)
     check_known_gate_tables(ctx, cirq)
 
